@@ -239,15 +239,15 @@ impl Display for RegExp<'_> {
         if self.config.is_verbose_mode_enabled {
             regexp = regexp
                 .replace('#', "\\#")
-                .replace(
-                    [
-                        ' ', ' ', ' ', ' ', ' ', ' ', ' ', '\u{85}', '\u{a0}', '\u{1680}',
-                        '\u{2000}', '\u{2001}', '\u{2002}', '\u{2003}', '\u{2004}', '\u{2005}',
-                        '\u{2006}', '\u{2007}', '\u{2008}', '\u{2009}', '\u{200a}', '\u{2028}',
-                        '\u{2029}', '\u{202f}', '\u{205f}', '\u{3000}',
-                    ],
-                    "\\s",
-                )
+                .chars()
+                .map(|c| {
+                    if VERBOSE_MODE_WHITESPACE.contains(&c) {
+                        format!("\\u{:04x}", c as u32)
+                    } else {
+                        c.to_string()
+                    }
+                })
+                .collect::<String>()
                 .replace(' ', "\\ ");
         }
 
@@ -262,6 +262,12 @@ impl Display for RegExp<'_> {
         )
     }
 }
+
+const VERBOSE_MODE_WHITESPACE: [char; 19] = [
+    '\u{85}', '\u{a0}', '\u{1680}', '\u{2000}', '\u{2001}', '\u{2002}', '\u{2003}', '\u{2004}',
+    '\u{2005}', '\u{2006}', '\u{2007}', '\u{2008}', '\u{2009}', '\u{200a}', '\u{2028}', '\u{2029}',
+    '\u{202f}', '\u{205f}', '\u{3000}',
+];
 
 fn indent_regexp(regexp: String, config: &RegExpConfig) -> String {
     let mut indented_regexp = vec![];
